@@ -577,69 +577,38 @@ int32 dtlsEncryptFragRecord(ssl_t *ssl, flightEncode_t *msg,
 
 /******************************************************************************/
 /*
-    Have all the fragments and their headers.  Feed them through the
-    UpdateHSHash routine in the order they were on the other side
+    Have all the bytes of the message (the fragments may overlap, or arrive
+    in any order).  Feed it through the UpdateHSHash routine as the one
+    unfragmented message it was on the other side
  */
 int32 dtlsHsHashFragMsg(ssl_t *ssl)
 {
     unsigned char fakeHeader[SSL3_HANDSHAKE_HEADER_LEN + DTLS_HEADER_ADD_LEN];
-    int32 i, nextOffset, headLen, totalLen;
+    int32 headLen, totalLen;
 
-/*
-    Construct the message from the fragments (may be out of order)
- */
-    nextOffset = i = totalLen = 0;
-    while (i < MAX_FRAGMENTS)
+    if (ssl->fragHeaders[0].hsHeader == NULL)
     {
-        if (ssl->fragHeaders[i].offset == nextOffset)
-        {
-/*
-            We must send this message through the handshake hash mechanism
-            as if there was no fragmentation at all.  A nextOffset value
-            of 0 will always mean this is the first fragment.  This header
-            has everything correct except the fragLen value.  This must
-            be manually changed to be the full 'len' value.  The remainder
-            of the fragment headers are not used.
- */
-            if (nextOffset == 0)
-            {
-                headLen = SSL3_HANDSHAKE_HEADER_LEN + DTLS_HEADER_ADD_LEN;
-                Memcpy(fakeHeader, ssl->fragHeaders[i].hsHeader, headLen);
-/*
-                First byte is 'type'.  Next three are total length.  Final
-                three are fragLen.
- */
-                fakeHeader[headLen - 3] = fakeHeader[1];
-                fakeHeader[headLen - 2] = fakeHeader[2];
-                fakeHeader[headLen - 1] = fakeHeader[3];
-
-                sslUpdateHSHash(ssl, fakeHeader, headLen);
-/*
-                Also grabbing the total length so we can make a smart loop exit
- */
-                totalLen = fakeHeader[1] << 16;
-                totalLen += fakeHeader[2] << 8;
-                totalLen += fakeHeader[3];
-            }
-/*
-            The remainder of the UpdateHS hash is simply the data from each frag
- */
-
-            sslUpdateHSHash(ssl, ssl->fragMessage + ssl->fragHeaders[i].offset,
-                ssl->fragHeaders[i].fragLen);
-
-            nextOffset += ssl->fragHeaders[i].fragLen;
-            i = 0;
-        }
-        else
-        {
-            if (nextOffset != 0 && nextOffset == totalLen)
-            {
-                break;
-            }
-            i++;
-        }
+        return 0;
     }
+/*
+    Every fragment header has the type, total length and message sequence
+    right.  First byte is 'type'.  Next three are total length.  The
+    unfragmented header has a fragment offset of 0 and the total length as
+    fragment length (the final three bytes).
+ */
+    headLen = SSL3_HANDSHAKE_HEADER_LEN + DTLS_HEADER_ADD_LEN;
+    Memcpy(fakeHeader, ssl->fragHeaders[0].hsHeader, headLen);
+    fakeHeader[headLen - 6] = fakeHeader[headLen - 5] = 0;
+    fakeHeader[headLen - 4] = 0;
+    fakeHeader[headLen - 3] = fakeHeader[1];
+    fakeHeader[headLen - 2] = fakeHeader[2];
+    fakeHeader[headLen - 1] = fakeHeader[3];
+    totalLen = fakeHeader[1] << 16;
+    totalLen += fakeHeader[2] << 8;
+    totalLen += fakeHeader[3];
+
+    sslUpdateHSHash(ssl, fakeHeader, headLen);
+    sslUpdateHSHash(ssl, ssl->fragMessage, totalLen);
     return 0;
 }
 
@@ -753,10 +722,11 @@ void dtlsInitFrag(ssl_t *ssl)
 
 /******************************************************************************/
 /*
-    Return 1 if this fragment has been seen before.  Just reads the
-    fragHeaders member.  Does not update.
+    Return 1 if all of this fragment is in a fragment seen before.  Just
+    reads the fragHeaders member.  Does not update.
  */
-int32 dtlsSeenFrag(ssl_t *ssl, int32 fragOffset, int32 *hdrIndex)
+int32 dtlsSeenFrag(ssl_t *ssl, int32 fragOffset, int32 fragLen,
+    int32 *hdrIndex)
 {
     int32 i;
 
@@ -767,7 +737,9 @@ int32 dtlsSeenFrag(ssl_t *ssl, int32 fragOffset, int32 *hdrIndex)
             *hdrIndex = i;
             return 0;
         }
-        if (ssl->fragHeaders[i].offset == fragOffset)
+        if (ssl->fragHeaders[i].offset <= fragOffset &&
+            fragOffset + fragLen <=
+            ssl->fragHeaders[i].offset + ssl->fragHeaders[i].fragLen)
         {
             return 1;
         }
@@ -776,6 +748,26 @@ int32 dtlsSeenFrag(ssl_t *ssl, int32 fragOffset, int32 *hdrIndex)
     Max fragments exceeded error
  */
     return -1;
+}
+
+/*
+    How many bytes from the start of the message do the fragments cover
+    without a gap
+ */
+int32 dtlsFragCoverage(ssl_t *ssl)
+{
+    int32 i, next = 0;
+
+    for (i = 0; i < MAX_FRAGMENTS && ssl->fragHeaders[i].offset != -1; i++)
+    {
+        if (ssl->fragHeaders[i].offset <= next &&
+            ssl->fragHeaders[i].offset + ssl->fragHeaders[i].fragLen > next)
+        {
+            next = ssl->fragHeaders[i].offset + ssl->fragHeaders[i].fragLen;
+            i = -1; /* fragments arrive in any order: look at all again */
+        }
+    }
+    return next;
 }
 
 /******************************************************************************/
